@@ -1,6 +1,6 @@
 //! C10: surviving peers agree on the cut-off of a dropped player.
 use crate::explore::{explore, ExploreCfg};
-use crate::net::{Fate, ScriptedFate};
+use crate::net::{Fate, Outage, ScriptedFate};
 use crate::props::core::{base_scn, packet_faults};
 use crate::report::Report;
 use crate::scenario::*;
@@ -224,6 +224,32 @@ pub fn c10() -> i32 {
             })
             .collect();
         scns.extend(repeats);
+        // equal receipt on the wire, but one survivor's packets (and with them its acknowledgements)
+        // do not reach the dying peer for the last n rounds of its life: the dying peer runs on to
+        // its prediction threshold and keeps encoding its input against the last frame that
+        // survivor acknowledged; the survivor must still hold that reference frame to decode what
+        // the other survivor decodes
+        let mut ack_outage: Vec<Scenario> = Vec::new();
+        for (timeouts, ns) in [((100u64, 300u64), vec![4, 8, 12, 15]), ((500, 2000), vec![10, 20, 40])] {
+            for n in ns {
+                for lat in [1, 2] {
+                    if !t && lat == 2 && n != 12 && n != 20 {
+                        continue;
+                    }
+                    for x in scenarios("c10-split-ack-outage", "1+1+1", &[3, 8], &[0, 2, 3], &[false, true], 6 + n..7 + n, 0, timeouts, lat) {
+                        for surv in 0..2usize {
+                            let mut x = x.clone();
+                            let dead = x.peers.len() - 1;
+                            let (from, to) = (x.peers[surv].addr, x.peers[dead].addr);
+                            x.outages.push(Outage { from, to, start: 6, len: n + 2, classes: CLASS_ALL });
+                            x.name = format!("{} nothing from survivor {surv} reaches the dying peer in its last {n} rounds", x.name);
+                            ack_outage.push(x);
+                        }
+                    }
+                }
+            }
+        }
+        scns.extend(ack_outage);
         // no stall before the drop is registered: window larger than the timeout, asymmetric
         // slow link between the survivors (one still owes the other corrections around the
         // cut-off when Disconnected is raised)
